@@ -110,6 +110,9 @@ func computeVirtualControlFlow(fn *ssa.Function) *virtualControlFlowState {
 
 const MaxFunctionBlocks = 5000
 
+// OversizedFingerprint marks functions that were skipped by the size guard. It is not a hash.
+const OversizedFingerprint = "OVERSIZED"
+
 func GenerateFingerprint(fn *ssa.Function, policy ir.LiteralPolicy, strictMode bool) FingerprintResult {
 	line := 0
 	filename := ""
@@ -122,7 +125,7 @@ func GenerateFingerprint(fn *ssa.Function, policy ir.LiteralPolicy, strictMode b
 	if len(fn.Blocks) > MaxFunctionBlocks {
 		return FingerprintResult{
 			FunctionName: fn.RelString(nil),
-			Fingerprint:  "OVERSIZED",
+			Fingerprint:  OversizedFingerprint,
 			CanonicalIR:  fmt.Sprintf("; Skipped: Function too large (%d blocks > %d)", len(fn.Blocks), MaxFunctionBlocks),
 			Pos:          fn.Pos(),
 			Line:         line,
